@@ -65,6 +65,10 @@ EXPLANATION += (
     ' Round 6: a reader answers from the requested row list itself, not only from an order-free summary of it (R-PERM/request-order).'
 )
 
+EXPLANATION += (
+    ' Round 7: a re-used read buffer is consumed through the part just filled (R-TILE/buffer-window).'
+)
+
 RULE_TEXT = (
     "one obligation per (dispatcher, encoding member), per arm-"
     "distinctness relation, per cursor relation, per range step / slice "
